@@ -72,8 +72,18 @@ class ActionContext(abc.ABC):
 
     def __exit__(self, exception_type, exception_value, exception_traceback):
         """Exit and close the context."""
-        if self.has_triggered():
-            self.location_action.record_triggered(self.trigger_context.ts)
+        pass
+
+    def acquire(self) -> bool:
+        """
+        Claim this fire: atomically re-check the limits and record the fire.
+
+        This is called after `can_trigger` (limits and condition) and before `process`, so that threads
+        reaching the tracepoint at the same time cannot exceed the fire count or period between them.
+
+        :return: True, if this context may process the action.
+        """
+        return self.location_action.try_trigger(self.trigger_context.ts)
 
     def eval_watch(self, watch: str, source: str) -> Tuple[WatchResult, Dict[str, Variable], str]:
         """
